@@ -7,6 +7,7 @@ sys.path.insert(0, os.path.join(os.path.dirname(os.path.abspath(__file__)), ".."
 import vf
 
 EAGAIN, EPIPE, EBADF, ECANCELED = -11, -32, -9, -125
+KNOWN_SHUT_CONN = "shutdown_pending_at_connect_completion_stalls"
 
 
 # --------------------------------------------------------------------------
@@ -283,11 +284,12 @@ def monitor(case, line):
 def model_input(case, impl_line):
     """the model gets the answers the wrappers actually gave"""
     parts = impl_line.split(";")
-    if len(parts) != 4:
+    if len(parts) != 5:
         return None
     c = case.split(";")
     blk = c[0].split()[0]
-    return "%s %s ;%s;%s; %s ; %s" % (blk, parts[3].strip(), c[1], c[2], parts[1].strip(), parts[2].strip())
+    return "%s %s %s ;%s;%s; %s ; %s" % (blk, parts[3].strip(), parts[4].strip().rstrip(","), c[1], c[2],
+                                        parts[1].strip(), parts[2].strip())
 
 
 def run_harness(cmd, cases, shards=12):
@@ -371,7 +373,8 @@ def main():
     try:
         lib = vf.build_libuv(chk.scratch, "ndebug")
         hs = vf.cc_harness(chk.scratch, "c05_stream", ["c05_stream.c"], lib=lib,
-                           wraps=["write", "writev", "sendmsg", "shutdown"])
+                           wraps=["write", "writev", "sendmsg", "shutdown", "connect", "getsockopt"])
+        os.environ["C05_SOCKDIR"] = chk.scratch.dir
         model = vf.model_bin("C05")
     except vf.BuildError as e:
         chk.violation("build failed: %s" % str(e)[:300], {"kind": "build", "log": str(e)}, found_input=False)
@@ -397,7 +400,7 @@ def main():
     if a:
         chk.sample({"case": gen[0][:300], "impl": a[len(FIXED) + len(corpus)][:300]})
         chk.cov["write_callbacks_observed"] = sum(l.split(";")[0].count(" b") for l in a)
-        chk.cov["syscall_answers_logged"] = sum(len(l.split(";")[1].split()) for l in a if l.count(";") == 3)
+        chk.cov["syscall_answers_logged"] = sum(len(l.split(";")[1].split()) for l in a if l.count(";") == 4)
     tcases = FIXED + corpus + gen[: (8000 if thorough else 1200)]
     run_mode(chk, "stream.c write path = Model/StreamWrite.v (tcp loopback via uv_tcp_open)",
              [hs, "tcp"], model, tcases)
